@@ -7,7 +7,8 @@
 (* deviations when that differs.                                             *)
 (*                                                                           *)
 (* Families (Fams = the set of families of one TLC run; NSel = subjects per  *)
-(* case, NPat = patterns per block, 0 = all):                                                   *)
+(* exec case, NStrm = subjects per "strm" pattern, NPat = patterns per       *)
+(* block; 0 = all):                                                          *)
 (*   "f1" atoms x quantifiers, assertions     "esc" escape translation atoms *)
 (*   "f2" two-term sequences          "f3" two-term alternations             *)
 (*   "f4" quantified groups around a two-term sequence / alternation         *)
@@ -18,8 +19,9 @@
 (*             constructor; flags                                            *)
 (*   "strm"    String.prototype.match / replace / search / split with a      *)
 (*             RegExp argument (lastIndex before = 0 or 1)                   *)
-(*   "bytes"   exec of a global expression from every lastIndex on subjects   *)
-(*             with 2- and 3-byte characters (byte vs code unit offsets)     *)
+(*   "bytes"   exec of a global expression from every lastIndex on subjects  *)
+(*             with 2- and 3-byte characters (byte vs code unit offsets);    *)
+(*             targeted: $nn replacement references with 12 captures         *)
 (*   "xlate"   every pattern text of all families with its classification    *)
 (*             only (the harness feeds parser.TransformRegExp + regexp.      *)
 (*             Compile directly)                                             *)
@@ -65,11 +67,13 @@ F4 == {o \o d \o RP \o q : o \in {LP, NLP}, d \in InnerD, q \in SeqSet(X_GroupQu
 F5 == Cat3(SeqSet(X_Nullable), SeqSet(X_NullQuants), {<<>>, <<98>>, <<36>>})
 F6 == {NLP \o LP \o a \o RP \o BAR \o b \o RP \o q : a \in Inner, b \in Inner, q \in SeqSet(X_GroupQuants)}
       \cup {LP \o LP \o a \o RP \o q1 \o b \o RP \o q : a \in Inner, b \in Inner, q1 \in {<<42>>, <<63>>}, q \in SeqSet(X_GroupQuants) \ {<<>>}}
+Twelve == <<40, 41, 40, 41, 40, 41, 40, 41, 40, 41, 40, 41, 40, 41, 40, 41, 40, 41, 40, 41>>
 StrmPats == Terms \cup SeqSet(X_Asserts) \cup
             {<<>>, <<97, 124>>, <<124, 97>>, <<40, 97, 41, 40, 98, 41, 63>>, <<40, 97, 41, 124, 40, 98, 41>>,
              <<40, 63, 58, 40, 97, 41, 124, 98, 41, 42>>, <<40, 98, 41>>, <<40, 46, 41, 40, 46, 41>>,
              <<97, 42, 63>>, <<40, 97, 42, 41, 98>>, <<91, 97, 98, 93>>, <<40, 92, 110, 41>>, <<40, 63, 58, 41>>,
-             <<40, 97, 63, 41, 40, 98, 63, 41>>, <<40, 41>>, <<46, 63>>, <<98, 124, 40, 97, 41>>, <<233>>, <<40, 233, 41, 124, 97>>}
+             <<40, 97, 63, 41, 40, 98, 63, 41>>, <<40, 41>>, <<46, 63>>, <<98, 124, 40, 97, 41>>, <<233>>, <<40, 233, 41, 124, 97>>,
+             <<40, 97, 41>> \o Twelve \o <<40, 98, 41>>}                  \* (a)()()()()()()()()()()(b): 12 captures for $nn
 Seq_f1 == SetToSeq(F1)   Seq_esc == SetToSeq(FE)   Seq_f2 == SetToSeq(F2)   Seq_f3 == SetToSeq(F3)
 Seq_f4 == SetToSeq(F4)   Seq_f5 == SetToSeq(F5)   Seq_f6 == SetToSeq(F6)   Seq_strm == SetToSeq(StrmPats)
 PatSeq(fam) ==
@@ -205,10 +209,15 @@ Next ==
                      cs' = o @@ [fam |-> "strm", form |-> IF PatSeq(fam)[j] = <<>> \/ si % 2 = 0 THEN "ctor" ELSE "lit",
                                  src |-> PatSeq(fam)[j], flags |-> fl, s |-> StrmSubj[si], li |-> li]
        ELSE IF fam = "bytes"
-       THEN /\ b <= Len(BytePats)
-            /\ \E si \in 1..Len(ByteSubj), li \in 0..8 :
-                  /\ li <= S!Utf8Len(ByteSubj[si]) + 1
-                  /\ cs' = [fam |-> "strm", m |-> "exec", form |-> "ctor", src |-> BytePats[b], flags |-> <<103>>, s |-> ByteSubj[si], li |-> IntV(li)]
+       THEN \/ /\ b <= Len(BytePats)
+               /\ \E si \in 1..Len(ByteSubj), li \in 0..8 :
+                     /\ li <= S!Utf8Len(ByteSubj[si]) + 1
+                     /\ cs' = [fam |-> "strm", m |-> "exec", form |-> "ctor", src |-> BytePats[b], flags |-> <<103>>, s |-> ByteSubj[si], li |-> IntV(li)]
+            \/ /\ b = K                             \* targeted: two-digit capture references with 12 captures
+               /\ \E sj \in {<<97, 98>>, <<97, 97, 98>>, <<98, 97, 98, 97, 98>>}, fl \in {<<>>, <<103>>},
+                      ri \in {j \in 1..Len(X_Repls) : S!RxReplDefined(X_Repls[j], 12)} :
+                     cs' = [fam |-> "strm", m |-> "replace", form |-> "lit", src |-> <<40, 97, 41>> \o Twelve \o <<40, 98, 41>>, flags |-> fl,
+                            s |-> sj, li |-> IntV(0), rep |-> X_Repls[ri]]
        ELSE \* "xlate"
             \E j \in {i \in 1..Len(SynSeq(fam)) : i % K = b - 1} : cs' = [fam |-> "xlate", src |-> SynSeq(fam)[j]]
 
